@@ -88,6 +88,20 @@ def handleCache (j : Json) : D Json := do
   pure (Json.mkObj [("calls", Json.arr (res.map (fun c =>
     Json.mkObj [("out", outJ c.1), ("cev", Json.arr (c.2.map cevJ).toArray)])).toArray)])
 
+def handlePred (j : Json) : D Json := do
+  let p ← getPred (← fld j "p")
+  let x ← getVal (← fld j "x")
+  match p.k.call x with
+  | .ok b => pure (Json.mkObj [("ok", b)])
+  | .error e => pure (Json.mkObj [("raised", exnJ e)])
+
+def handleProc (j : Json) : D Json := do
+  let p ← getProc (← fld j "p")
+  let x ← getVal (← fld j "x")
+  match p.k.call x with
+  | .ok y => pure (Json.mkObj [("ok", valJ y)])
+  | .error e => pure (Json.mkObj [("raised", exnJ e)])
+
 def handle (line : String) : Json :=
   match Json.parse line with
   | .error e => Json.mkObj [("error", "bad-json"), ("detail", e)]
@@ -96,6 +110,8 @@ def handle (line : String) : Json :=
       match ← str j "op" with
       | "run" => handleRun j
       | "cache" => handleCache j
+      | "pred" => handlePred j
+      | "proc" => handleProc j
       | "ping" => pure (Json.mkObj [("pong", true)])
       | op => throw s!"bad-op {op}"
     match r with
